@@ -10,6 +10,7 @@
 import WinterProofs.Lemmas.C20Batch
 import WinterProofs.Lemmas.C20Gen
 import WinterProofs.Lemmas.C20GenRlz
+import WinterProofs.Lemmas.C20GenFps
 import WinterProofs.Lemmas.C20Div
 import Mathlib.Algebra.Field.Rat
 
@@ -380,9 +381,9 @@ example : batchInversion OQ [2, 0, 4, 0] = .ok [1/2, 0, 1/4, 0] ∧ batchInversi
 field-generic over an operations record, vectors as lists, index loops as structural recursion, `v[i]` with its
 bound in `_ok`.  For EVERY operations record `O` of the model and all inputs the regenerated function is the model
 function the theorems above are about and its no-panic condition holds.  (Proved: `eval`, `add`, `sub`, `mul_by_scalar`,
-`degree_of` here, `div`, `serial_batch_inversion`, `mul`, `remove_leading_zeros` below; the other translated
-functions — `syn_div`, `syn_div_in_place`, `syn_div_roots_in_place`, `fill_zero_roots`, `poly_from_roots`,
-`fill_power_series` — are evaluated next to the model by the driver on every line.) -/
+`degree_of` here, `div`, `serial_batch_inversion`, `mul`, `remove_leading_zeros`, `fill_power_series` below; the
+other translated functions — `syn_div`, `syn_div_in_place`, `syn_div_roots_in_place`, `fill_zero_roots`,
+`poly_from_roots` — are evaluated next to the model by the driver on every line.) -/
 theorem gen_polynom_eq_model {α : Type} (O : Model.Poly.Ops α) (p q : List α) (x : α) :
     (Gen.Polynom.eval O.toX p x = Model.Poly.eval O p x ∧ Gen.Polynom.eval_ok O.toX p x = true) ∧
     (Gen.Polynom.add O.toX p q = Model.Poly.add O p q ∧ Gen.Polynom.add_ok O.toX p q = true) ∧
@@ -425,5 +426,14 @@ theorem gen_remove_leading_zeros_eq_model {α : Type} (O : Model.Poly.Ops α) (p
     Gen.Polynom.remove_leading_zeros O.toX p = Model.Poly.removeLeadingZeros O p ∧
     Gen.Polynom.remove_leading_zeros_ok O.toX p = true :=
   C20G.gen_remove_leading_zeros_eq O p hp
+
+/-- ★ `fill_power_series` (regenerated from math/src/utils/mod.rs: `result[0] = start`, then
+    `result[i] = result[i - 1] * base`, nothing for an empty slice) IS the model's power series of the slice's
+    length, whatever the slice held before, and none of its indices can fail -/
+theorem gen_fill_power_series_eq_model {α : Type} (O : Model.Poly.Ops α) (result : List α) (base start : α) :
+    Gen.MathUtils.fill_power_series O.toX result base start =
+      Model.Poly.fillPowerSeries O base result.length start ∧
+    Gen.MathUtils.fill_power_series_ok O.toX result base start = true :=
+  C20G.gen_fill_power_series_eq O result base start
 
 end WinterProofs.C20
